@@ -218,6 +218,13 @@ def build_script(seed, size=1.0, micro=False):
         par.op("pairing", A1[(i + 1) % 3], A2[j])
         par.op("pair_with_21", A2[j], A1[i])
         m = par.op("miller", V.lst([pp1[i], pp2[j], pp1[(i + 1) % 4], pp2[(j + 2) % 4]]))
+        # list entries that share one prepared object (same G2 element twice, same G1 element twice, a repeated pair),
+        # each followed by its twin in which every entry is an object of its own
+        for lst in ([pp1[i], pp2[j], pp1[(i + 1) % 3], pp2[j]], [pp1[i], pp2[j], pp1[i], pp2[(j + 1) % 3]],
+                    [pp1[i], pp2[j], pp1[i], pp2[j], pp1[(i + 2) % 3], pp2[j]]):
+            md = rng.randrange(9)
+            par.op("miller", V.lst(lst), V.n(md))
+            par.op("miller", V.lst(lst), V.n(md | 16))
         par.lines[-1] = par.lines[-1]  # result of miller is consumed by the next op through its own id
         par.op("final_exp", f12())
         par.op("pairing_multi", V.lst([A1[i], A1[j]]), V.lst([A2[j], A2[i]]))
@@ -482,6 +489,13 @@ def judge_par(ctx, rec, res):
             return spec.expect_point(res, rec, g, spec.smul(g, rec.args[0][1], P))
         k = share[("SHARE_SCALAR", g)][1]
         return spec.expect_point(res, rec, g, spec.smul(g, k, spec.pt(rec.args[0])[1]))
+    if rec.op == "miller" and len(rec.args) > 1 and rec.args[1][1] & 16:
+        # twin of the preceding record: the same list, every entry an object of its own instead of shared registers
+        prev = ctx.recs.get(rec.id - 1)
+        if prev is not None and prev.op == "miller" and prev.toks[0] == rec.toks[0] and prev.status == "ok":
+            res.evals += 1
+            if rec.status != "ok" or rec.outs != prev.outs:
+                return "the same Miller-loop value whether or not list entries share one prepared object: " + V.fmt(prev.outs[0])[:300]
     if rec.op in ("pairing", "pairing_p", "pair_with_12", "pair_with_21", "pairing_multi", "miller", "final_exp", "prepare1", "prepare2"):
         from props import c11, c03, c12
         if rec.op in ("pairing", "pairing_p", "pair_with_12", "pair_with_21"):
